@@ -5,9 +5,13 @@ import (
 	"context"
 	"encoding/json"
 	"fmt"
+	"os"
+	"path/filepath"
 	"regexp"
 	"runtime/debug"
+	"sort"
 	"strings"
+	"sync"
 	"time"
 
 	"github.com/invopop/gobl"
@@ -232,6 +236,9 @@ func planC14sweep(c *Ctx, run int64, src bool) *Plan {
 		case 's':
 			add("alter", n.Ptr, Op{I: int64(r.IntN(1 << 20))})
 			add("setstr", n.Ptr, Op{S2: Pick(r, []string{"", " ", "0", "-", "%", "9999999999999999999999", "1e9", "\u0000", "ÿ", "a.b.c", "--1", "1.2.3", "٣", "1." + strings.Repeat("0", 70), "0." + strings.Repeat("0", 30) + "1", "5." + strings.Repeat("0", 64) + "%", "-0", "00012", "1e-400", "9223372036854775807", "92233720368547758.08", "NE(", "(?", "a[b", "x{2,1}", "*", "\\"})})
+			if n.Key == "percent" || n.Key == "surcharge" {
+				add("setstr", n.Ptr, Op{S2: Pick(r, []string{"-100%", "-100.000%", "-1.00", "100%", "0%", "-0.0%", "1000000%"})})
+			}
 			if strings.Contains(n.Ptr, "/ext/") {
 				// extension values end up in messages, lookups and sometimes patterns
 				add("setstr", n.Ptr, Op{S2: Pick(r, []string{"NE(", "(?", "a[b", "x{2,1}", "A*", "\\d"})})
@@ -274,6 +281,13 @@ func planC14sweep(c *Ctx, run int64, src bool) *Plan {
 			}
 		case 'o':
 			add("emptyobj", n.Ptr, Op{})
+			if n.Key == "tax_id" {
+				// a party of any country: every regime's tax-id rules are reachable from any document
+				ccs := regimeCountries(c.Repo)
+				for k := 0; k < 3 && len(ccs) > 0; k++ {
+					add("taxid", n.Ptr, Op{S2: Pick(r, ccs), S3: Pick(r, []string{"12345678", "1234567", "123456789", "1234567890", "12345678901", "A1234567", "U1234567", "12345678A", "X", "0", "123456789012345"})})
+				}
+			}
 		}
 	}
 	return p
@@ -602,6 +616,10 @@ func c14mutate(root *JV, op Op) ([]byte, bool) {
 		return true
 	}
 	switch op.K {
+	case "taxid":
+		if !set(&JV{K: 'o', M: []JM{{"country", JStr(op.S2)}, {"code", JStr(op.S3)}}}) {
+			return nil, false
+		}
 	case "null":
 		if !set(&JV{K: 'z'}) {
 			return nil, false
@@ -850,4 +868,29 @@ func (x *X) amplify(d *Doc, op Op) {
 		x.feed(data, where, which, nil, nil)
 	}
 	x.guard("c14n", where, func() { _, _ = c14n.CanonicalJSON(bytes.NewReader(data)) })
+}
+
+var (
+	regCCMu sync.Mutex
+	regCC   []string
+)
+
+// regimeCountries lists the country codes of the published regimes.
+func regimeCountries(repo string) []string {
+	regCCMu.Lock()
+	defer regCCMu.Unlock()
+	if regCC != nil {
+		return regCC
+	}
+	files, _ := filepath.Glob(filepath.Join(repo, "data/regimes/*.json"))
+	sort.Strings(files)
+	for _, f := range files {
+		var d struct {
+			Country string `json:"country"`
+		}
+		if b, err := os.ReadFile(f); err == nil && json.Unmarshal(b, &d) == nil && d.Country != "" {
+			regCC = append(regCC, d.Country)
+		}
+	}
+	return regCC
 }
